@@ -590,7 +590,11 @@ def size_shortcuts(crate, o, names):
             return True
         return t[0] == "call" and t[1].endswith("Order::order") and t[3] and t[3][0][0] == "at" and t[3][0][1] == "A1"
 
+    size_terms = set()      # per function: what the analysis resolved `self.size()` to (an inlined sum over the rows, ..)
+
     def is_size(t):
+        if t in size_terms:
+            return True
         return t[0] == "call" and t[1].endswith("Size::size") and bool(t[3]) and t[3][0][0] == "at" and t[3][0][1] == "A1"
 
     def has_size(t):
@@ -640,6 +644,9 @@ def size_shortcuts(crate, o, names):
         name = prog.fns[p]["name"]
         an = crate.an(p)
         cfg = an.cfg
+        size_terms.clear()
+        size_terms.update(e["res"] for e in an.events if e["k"] == "call" and (e["key"] or "").endswith("Size::size")
+                          and e["args"] and e["args"][0] == ("arg", 1) and isinstance(e.get("res"), tuple))
         rets = [e for e in an.events if e["k"] == "return"]
         sws = [e for e in an.events if e["k"] == "switch" and has_size(e["discr"]) and ev_(e["discr"], 3, 3) is not None]
         if not sws or len(rets) != 1:
